@@ -101,11 +101,15 @@ def run(P: Program, rep: Report):
     rep.require_count("C15.R2", "month value kinds", len(vals), 200)
     classes = {k: P.cls("middlewares.month", n) for k, n in MW.items()}
 
-    def apply(it, kind, v):
+    def apply(it, kind, v, entry_cls=None, through="transform_entry"):
         f = new_obj(it, P, "model", "Field", key="month", value=v, start_line=1)
-        e = new_obj(it, P, "model", "Entry", entry_type="a", key="k", fields=AList([new_obj(it, P, "model", "Field", key="title", value="t", start_line=0), f]), start_line=0, raw="r")
+        fl = AList([new_obj(it, P, "model", "Field", key="title", value="t", start_line=0), f])
+        e = it.construct(entry_cls or P.cls("model", "Entry"), [], dict(entry_type="a", key="k", fields=fl, start_line=0, raw="r"))
         mw = it.construct(classes[kind], [], {})
-        out = call(it, mw, "transform_entry", e, Unknown("library"))
+        if through == "transform_block":
+            out = call(it, mw, "transform_block", e, Unknown("library"))
+        else:
+            out = call(it, mw, "transform_entry", e, Unknown("library"))
         if out is not e:
             return ("other-block", out)
         fs = it.iterate(it.get_attr(e, "fields"))
@@ -206,6 +210,26 @@ def run(P: Program, rep: Report):
         rep.fail("C15.R5", f"composition:{k}", mod.relpath, msg)
     if not badc:
         rep.ok("C15.R5", f"composition:{nc}-rows", mod.relpath)
+
+    rep.rule("C15.R7", "entries are entries: an instance of a subclass of Entry (downstream code may subclass the model) handed to the middleware "
+                       "through the block dispatch is converted like any entry")
+    from . import common as _cm
+    sub = _cm.synthetic_subclass(P, P.cls("model", "Entry"))
+    for kind in MW:
+        for v in (1, "3", "jan", "MAY", "December", "13", "foo"):
+            def one7(ctx, kind=kind, v=v):
+                it = driver_interp(P, ctx, "middlewares.month")
+                try:
+                    return apply(it, kind, v, entry_cls=sub, through="transform_block")
+                except Raised as r:
+                    return ("raise", r)
+                except (Unsupported, LoopBound) as u:
+                    raise AnalysisError(f"C15.R7: analyser cannot follow {MW[kind]}: {u}")
+            for ctx, res in explore(one7, 20):
+                want = expected(kind, v)
+                ok = res[0] == "value" and res[1] == want and type(res[1]) is type(want)
+                rep.check(ok, "C15.R7", f"entry-subclass:{kind}:{v!r}", classes[kind].loc,
+                          f"{MW[kind]} on an instance of a subclass of Entry with month {v!r}: {res[:2]!r}, the contract gives {want!r}")
 
     rep.rule("C15.R6", "no state between entries: one middleware instance applied to a run of entries whose month values coincide under "
                        "str() / lower() / strip() / int() (13 and '13', 1 and '1' and '01', 'jan' and 'JAN', 'foo' and 'FOO', None and 'None') "
